@@ -13,15 +13,18 @@ TESTS = '--tests' in sys.argv
 VERIF = '/verif'; REPO = '/repo'
 work = tempfile.mkdtemp(prefix='mut_%s_' % ID)
 env = dict(os.environ, GOFLAGS='-mod=mod', GOPROXY='off', GOSUMDB='off', GOTOOLCHAIN='local', GOWORK='off')
-subprocess.run([VERIF + '/check', ID, 'quick'], stdout=subprocess.DEVNULL)  # make sure the binary is current
-subprocess.run([VERIF + '/bin/maddyverif', '-repo', REPO, '-verif', VERIF, '-property', ID, '-mutgen', work], stdout=subprocess.DEVNULL, env=env)
+BIN = os.environ.get('MUT_BIN')
+if not BIN:
+    subprocess.run([VERIF + '/check', ID, 'quick'], stdout=subprocess.DEVNULL)  # make sure the binary is current
+    BIN = VERIF + '/bin/maddyverif'
+subprocess.run([BIN, '-repo', REPO, '-verif', VERIF, '-property', ID, '-mutgen', work], stdout=subprocess.DEVNULL, env=env)
 muts = json.load(open(work + '/mutants.json'))
 
 def run(m):
     vd = '%s/v%05d' % (work, m['id'])
     os.makedirs(vd + '/evidence', exist_ok=True)
     shutil.copy(VERIF + '/known_findings.json', vd + '/known_findings.json')
-    p = subprocess.run([VERIF + '/bin/maddyverif', '-repo', REPO, '-verif', vd, '-property', ID, '-overlay', m['file'] + '=' + m['out']],
+    p = subprocess.run([BIN, '-repo', REPO, '-verif', vd, '-property', ID, '-overlay', m['file'] + '=' + m['out']],
                        capture_output=True, text=True, env=env)
     out = p.stdout
     import re
@@ -36,7 +39,7 @@ def run(m):
     m = dict(m); m['verdict'] = verdict; m['rules'] = [r for r in rules if '.floor' not in r or len(rules) == 1][:12]
     return m
 
-with cf.ThreadPoolExecutor(max_workers=12) as ex:
+with cf.ThreadPoolExecutor(max_workers=int(os.environ.get('MUT_JOBS','12'))) as ex:
     res = list(ex.map(run, muts))
 
 if TESTS:
